@@ -132,6 +132,13 @@ def check_decl(kind, base_t, specs, res: JobResult, tier):
                 except Exception as e:  # noqa: BLE001
                     issue("load:raises", f"{style} {impl.exc_sig(e)} {e!r}")
                     continue
+                if bitf:
+                    # bit-fields of the enum type behind a dynamically sized member of an aligned structure (placed and written at run time)
+                    try:
+                        cs.load("struct SD { uint8 n; char d[n]; E lo : 4; E hi : " + ("4" if size == 1 else "12") + "; uint8 t; };", compiled=compiled, align=True)
+                    except Exception as e:  # noqa: BLE001
+                        issue("load:raises", f"aligned dynamic struct: {impl.exc_sig(e)} {e!r}")
+                        continue
                 E = cs.E
                 got = [(k, v.value) for k, v in E.__members__.items()]
                 res.evaluations += 1
@@ -187,16 +194,23 @@ def check_decl(kind, base_t, specs, res: JobResult, tier):
                         d = s.dumps()
                         if d != data:
                             issue("struct:dumps", f"value {v}: dumps {d.hex()} != input {data.hex()}", v)
+                        lohi = None
                         if size == 1:
                             uv = v & 0xFF
                             lohi = (uv & 0xF, uv >> 4) if endian == "<" else (uv >> 4, uv & 0xF)
-                            if (s.lo.value, s.hi.value) != lohi:
-                                issue("bitfield", f"unit {uv:#x}: lo/hi {(s.lo.value, s.hi.value)} expected {lohi}", v)
                         elif size == 2:
                             uv = v & 0xFFFF
                             lohi = (uv & 0xF, uv >> 4) if endian == "<" else (uv >> 12, uv & 0xFFF)
+                        if lohi is not None:
                             if (s.lo.value, s.hi.value) != lohi:
                                 issue("bitfield", f"unit {uv:#x}: lo/hi {(s.lo.value, s.hi.value)} expected {lohi}", v)
+                            data2 = b"\x02xy" + (b"\x00" if size == 2 else b"") + unit + b"\x7e"
+                            sd = cs.SD(data2 + bytes(8))
+                            d2 = sd.dumps()
+                            if (sd.lo.value, sd.hi.value, sd.t) != (*lohi, 0x7E) or type(sd.lo) is not E:
+                                issue("bitfield", f"aligned struct behind a dynamic member, unit {uv:#x}: lo/hi/t {(sd.lo.value, sd.hi.value, sd.t)} expected {(*lohi, 0x7E)}", v)
+                            elif not (len(d2) >= len(data2) and (data2 + bytes(8)).startswith(d2)):
+                                issue("struct:dumps", f"aligned struct behind a dynamic member, unit {uv:#x}: dumps {d2.hex()} != input {data2.hex()} (+ zero padding)", v)
                     except Exception as e:  # noqa: BLE001
                         issue("raises", f"value {v}: {impl.exc_sig(e)} {e!r}", v, exc=type(e).__name__)
     # legacy parser twin of the auto-numbering (named, literal values only)
@@ -296,7 +310,7 @@ def meta(tier):
         "rule": "every enum/flag declaration with 1-3 members (thorough 4) whose value specs range over {auto, =0, =1, =2, =3, =5, =0x10, =-1, =prev+1, "
         "=prev<<1, =1<<3, duplicate of previous, =first|4} x 8 underlying types (incl. default and uint24) x {one line, one member per line, line "
         "break inside a member}; numbering = C rule; then ALL 256 underlying values for 8-bit bases, boundary/member/combination values otherwise, "
-        "as scalar (bytes and stream), [2], [], bit-fields and struct field, both endiannesses, both readers: value preserved, dumps writes it back, "
+        "as scalar (bytes and stream), [2], [], bit-fields (static, and behind a dynamic member of an aligned structure) and struct field, both endiannesses, both readers: value preserved, dumps writes it back, "
         "==/hash laws; legacy parser numbering; cross-enum inequality; non-trivial = declarations with at least one explicit value",
         "bounds": {"members": 3 if tier == "quick" else 4, "value_specs": SPECS, "bases": [b[0] for b in BASES]},
         "assumptions": ["flag declarations with negative member values are outside the domain"],
